@@ -131,7 +131,9 @@ RefNormParts(u, o) ==
       q1 == IF o.fix THEN FixAmpEntities(c0.query) ELSE c0.query
       hostl0 == HostLabels(c0.host)
       hostl1 == IF o.sub THEN StripSubdomains(hostl0, o.amp) ELSE hostl0
-      hostl2 == IF o.amp THEN StripAmpDash(hostl1) ELSE hostl1
+      \* what follows 'amp-' can be an irrelevant subdomain too ('amp-www.x.com')
+      hostl2a == IF o.amp THEN StripAmpDash(hostl1) ELSE hostl1
+      hostl2 == IF o.amp /\ o.sub /\ hostl2a # hostl1 THEN StripSubdomains(hostl2a, o.amp) ELSE hostl2a
       hostl == IF o.lang THEN StripLang(hostl2) ELSE hostl2
       raw == SelectSeq(SplitOn(q1, 38), LAMBDA it : it # <<>>)
       triples == [i \in 1..Len(raw) |-> LET kv == SplitFirst(raw[i], 61) IN <<LowIf(o, QU(o.quoted, "qitem", kv[1])), LowIf(o, QU(o.quoted, "qitem", kv[2])), kv[3]>>]
